@@ -125,7 +125,7 @@ class Engine(ExprMixin, CallMixin, BuiltinMixin, ApplyMixin, StmtMixin, _Base):
                     st.facts.append(f)
             ks = c.sorts.get(n + "[k]")
             if ks in NATIVE and pt == "dict":
-                kx = z3.Const("kx", v.Val)
+                kx = self.bv("kx")
                 st.facts.append(z3.ForAll([kx], z3.Implies(v.dhas(sv.t, kx), v.ty(kx) == v.cls[ks]), patterns=[v.dhas(sv.t, kx)]))
         st.eff = z3.IntVal(0)
         return st
@@ -207,7 +207,7 @@ class Engine(ExprMixin, CallMixin, BuiltinMixin, ApplyMixin, StmtMixin, _Base):
             is_self_init = fi.node.name == "__init__"
             cur = self.heap_get(post_st, attr)
             old = self.heap_get(entry, attr)
-            x = z3.Const("fx", v.Val)
+            x = self.bv("fx")
             goal = z3.ForAll([x], z3.Implies(born(x) == 0, z3.Select(cur, x) == z3.Select(old, x))) if not is_self_init else \
                 z3.ForAll([x], z3.Implies(z3.And(born(x) == 0, x != self.box(entry.env["self"])), z3.Select(cur, x) == z3.Select(old, x)))
             cnt = fr.def_counter.get(("frame", attr), 0)
@@ -251,12 +251,14 @@ def _solve_one(job):
     if expect_fail:
         verdict, secs, solver, reason = solve_smt2(text, min(timeout_ms, 1000), seed, mode="ematching")
         return name, verdict, secs, solver, reason, [(solver, verdict, round(secs, 3))]
-    verdict, secs, solver, reason = solve_smt2(text, timeout_ms, seed, mode="ematching")
+    verdict, secs, solver, reason = solve_smt2(text, min(3000, timeout_ms), seed, mode="ematching")
     tried = [(solver, verdict, round(secs, 3))]
     if verdict != "unsat":
-        for alt in ("cvc5", "z3-default", "z3-4.8"):
+        for alt in ("z3-default", "cvc5", "z3-ematching-long", "z3-4.8"):
             if alt == "z3-default":
                 v2, s2, n2, _ = solve_smt2(text, timeout_ms, seed, mode="default")
+            elif alt == "z3-ematching-long":
+                v2, s2, n2, _ = solve_smt2(text, timeout_ms, seed + 1, mode="ematching")
             else:
                 v2, s2, n2, _ = solve_cli(text, alt, max(10, timeout_ms // 1000))
             tried.append((n2, v2, round(s2, 3)))
